@@ -208,35 +208,34 @@ func (c *Ctx) checkRetryCallbacks(r *Report, rule, rel string, senders map[*ssa.
 				return
 			}
 			r.fn(cb)
-			data := cb.Params[len(cb.Params)-1]
-			// sends: argument must be the callback's own parameter (possibly type-asserted)
-			var sends []ssa.CallInstruction
-			badArg := ""
-			allInstrs(cb, func(j ssa.Instruction) {
-				cj, ok := j.(ssa.CallInstruction)
-				if !ok {
-					return
-				}
-				g := staticCallee(cj.Common())
-				if g == nil || !senders[g] {
-					return
-				}
-				sends = append(sends, cj)
-				arg := packetArg(g, cj.Common())
-				os := c.origins(arg)
-				if len(os) != 1 || os[0].Kind != "param" || os[0].Root != ssa.Value(data) || len(os[0].Path) != 0 {
-					badArg = "the retry callback sends " + exprStr(arg) + " instead of the stored step packet it is handed"
-				}
-			})
-			if len(sends) == 0 {
-				r.bad(rule, key, c.pos(cb.Pos()), "the retry callback does not resend anything")
-				return
+			// the callback and the unexported helpers of the package it hands the stored packet to (a callback
+			// split into resendSN / resendMQTT is judged by the helpers' bodies)
+			type unit struct {
+				fn   *ssa.Function
+				data *ssa.Parameter
 			}
-			if badArg != "" {
-				r.bad(rule, key, c.pos(cb.Pos()), badArg)
-				return
+			units := []unit{{cb, cb.Params[len(cb.Params)-1]}}
+			seenU := map[*ssa.Function]bool{cb: true}
+			for k := 0; k < len(units) && k < 6; k++ {
+				u := units[k]
+				allInstrs(u.fn, func(j ssa.Instruction) {
+					cj, ok := j.(ssa.CallInstruction)
+					if !ok {
+						return
+					}
+					g := staticCallee(cj.Common())
+					if g == nil || g.Blocks == nil || senders[g] || seenU[g] || fnPkgPath(g) != modPath+"/"+rel {
+						return
+					}
+					for ai, a := range cj.Common().Args {
+						os := c.origins(a)
+						if len(os) == 1 && os[0].Kind == "param" && os[0].Root == ssa.Value(u.data) && len(os[0].Path) == 0 && ai < len(g.Params) {
+							seenU[g] = true
+							units = append(units, unit{g, g.Params[ai]})
+						}
+					}
+				})
 			}
-			// DUP
 			types_ := c.stepDataTypes(rel, ctor)
 			needDup := false
 			for _, t := range types_ {
@@ -244,82 +243,116 @@ func (c *Ctx) checkRetryCallbacks(r *Report, rule, rel string, senders map[*ssa.
 					needDup = true
 				}
 			}
-			if !needDup {
-				r.ok(rule, key, c.pos(cb.Pos()), fmt.Sprintf("re-sends the stored packet; step data types %v carry no DUP flag", types_))
-				return
-			}
-			// every send must be preceded by SetDUP(true) / Dup=true on the data, except through the
-			// failed comma-ok edge of an assertion to a DUP-capable type
-			bad := ""
-			for _, s := range sends {
-				isSet := func(x ssa.Instruction) bool {
-					if cx, ok := x.(ssa.CallInstruction); ok {
-						nm := ""
-						if cx.Common().IsInvoke() {
-							nm = cx.Common().Method.Name()
-						} else if g := staticCallee(cx.Common()); g != nil {
-							nm = g.Name()
-						}
-						if nm == "SetDUP" {
-							args := cx.Common().Args
-							if b, ok := constBool(args[len(args)-1]); ok && b {
-								return true
-							}
-						}
+			nSends := 0
+			badArg, bad := "", ""
+			for _, u := range units {
+				cb, data := u.fn, u.data
+				r.fn(cb)
+				var sends []ssa.CallInstruction
+				allInstrs(cb, func(j ssa.Instruction) {
+					cj, ok := j.(ssa.CallInstruction)
+					if !ok {
+						return
 					}
-					if st, ok := x.(*ssa.Store); ok {
-						if fa, ok := st.Addr.(*ssa.FieldAddr); ok && fieldName(fa.X.Type(), fa.Field) == "Dup" {
-							if b, ok := constBool(st.Val); ok && b {
-								return true
-							}
-						}
+					g := staticCallee(cj.Common())
+					if g == nil || !senders[g] {
+						return
 					}
-					return false
-				}
-				// paths from entry to the send avoiding the set: allowed only if they pass a failed assertion to a DUP-capable type
-				reach, _ := pathExists(cb, nil, func(x ssa.Instruction) bool { return x == ssa.Instruction(s) }, func(x ssa.Instruction) bool {
-					if isSet(x) {
-						return true
+					sends = append(sends, cj)
+					arg := packetArg(g, cj.Common())
+					os := c.origins(arg)
+					if len(os) != 1 || os[0].Kind != "param" || os[0].Root != ssa.Value(data) || len(os[0].Path) != 0 {
+						badArg = "the retry callback sends " + exprStr(arg) + " instead of the stored step packet it is handed"
 					}
-					return false
 				})
-				if !reach {
+				nSends += len(sends)
+				if !needDup {
 					continue
 				}
-				// is there a comma-ok assertion to a DUP-capable type whose ok edge leads to the set?
-				guardedSet := false
-				allInstrs(cb, func(x ssa.Instruction) {
-					if !isSet(x) {
-						return
+				// every send must be preceded by SetDUP(true) / Dup=true on the data, except through the
+				// failed comma-ok edge of an assertion to a DUP-capable type
+				for _, s := range sends {
+					isSet := func(x ssa.Instruction) bool {
+						if cx, ok := x.(ssa.CallInstruction); ok {
+							nm := ""
+							if cx.Common().IsInvoke() {
+								nm = cx.Common().Method.Name()
+							} else if g := staticCallee(cx.Common()); g != nil {
+								nm = g.Name()
+							}
+							if nm == "SetDUP" {
+								args := cx.Common().Args
+								if b, ok := constBool(args[len(args)-1]); ok && b {
+									return true
+								}
+							}
+						}
+						if st, ok := x.(*ssa.Store); ok {
+							if fa, ok := st.Addr.(*ssa.FieldAddr); ok && fieldName(fa.X.Type(), fa.Field) == "Dup" {
+								if b, ok := constBool(st.Val); ok && b {
+									return true
+								}
+							}
+						}
+						return false
 					}
-					// the set must lie on a path to this very send
-					if r2, _ := pathExists(cb, x, func(y ssa.Instruction) bool { return y == ssa.Instruction(s) }, nil); !r2 {
-						return
+					reach, _ := pathExists(cb, nil, func(x ssa.Instruction) bool { return x == ssa.Instruction(s) }, func(x ssa.Instruction) bool { return isSet(x) })
+					if !reach {
+						continue
 					}
-					for _, g := range guardsOf(x.Block()) {
-						if ex, ok := g.Cond.(*ssa.Extract); ok && g.Truth && ex.Index == 1 {
-							if ta, ok := ex.Tuple.(*ssa.TypeAssert); ok && c.assertIsDupType(ta) {
-								guardedSet = true
+					guardedSet := false
+					allInstrs(cb, func(x ssa.Instruction) {
+						if !isSet(x) {
+							return
+						}
+						if r2, _ := pathExists(cb, x, func(y ssa.Instruction) bool { return y == ssa.Instruction(s) }, nil); !r2 {
+							return
+						}
+						for _, g := range guardsOf(x.Block()) {
+							if ex, ok := g.Cond.(*ssa.Extract); ok && g.Truth && ex.Index == 1 {
+								if ta, ok := ex.Tuple.(*ssa.TypeAssert); ok && c.assertIsDupType(ta) {
+									guardedSet = true
+								}
+							}
+						}
+					})
+					sendTypes := c.sendArmTypes(s, data)
+					// a helper that only ever receives one arm of the callback's type switch: its parameter type tells
+					if len(sendTypes) == 0 {
+						if pt := typeStr(data.Type()); strings.HasPrefix(pt, "*") || strings.Contains(pt, ".") {
+							if _, isIface := data.Type().Underlying().(*types.Interface); !isIface {
+								sendTypes = []string{pt}
+							} else if !typeIs(data.Type(), pkPackets, "Packet") && !isEmptyInterface(data.Type()) {
+								sendTypes = []string{"iface:" + pt}
 							}
 						}
 					}
-				})
-				// which packet types reach this particular send? (type switch arms)
-				sendTypes := c.sendArmTypes(s, data)
-				anyDup := len(sendTypes) == 0
-				for _, t := range sendTypes {
-					if t == "iface" || c.dupCapable(t) {
-						anyDup = true
+					anyDup := len(sendTypes) == 0
+					for _, t := range sendTypes {
+						if t == "iface" || c.dupCapable(t) {
+							anyDup = true
+						}
+						if strings.HasPrefix(t, "iface:") && strings.Contains(t, "mqtt.") {
+							anyDup = false || anyDup // an MQTT control packet interface: DUP is the broker direction's business
+						}
+					}
+					if !guardedSet && anyDup {
+						bad = "a retransmission path reaches the send without setting DUP although the stored packet (" + strings.Join(types_, ", ") + ") has a DUP flag"
 					}
 				}
-				if !guardedSet && anyDup {
-					bad = "a retransmission path reaches the send without setting DUP although the stored packet (" + strings.Join(types_, ", ") + ") has a DUP flag"
-				}
 			}
-			if bad != "" {
-				r.bad(rule, key, c.pos(cb.Pos()), bad)
-			} else {
-				r.ok(rule, key, c.pos(cb.Pos()), fmt.Sprintf("re-sends the stored packet with DUP set whenever it has one (step data types %v)", types_))
+			cbPos := c.pos(cb.Pos())
+			switch {
+			case nSends == 0:
+				r.bad(rule, key, cbPos, "the retry callback does not resend anything")
+			case badArg != "":
+				r.bad(rule, key, cbPos, badArg)
+			case !needDup:
+				r.ok(rule, key, cbPos, fmt.Sprintf("re-sends the stored packet; step data types %v carry no DUP flag", types_))
+			case bad != "":
+				r.bad(rule, key, cbPos, bad)
+			default:
+				r.ok(rule, key, cbPos, fmt.Sprintf("re-sends the stored packet with DUP set whenever it has one (step data types %v)", types_))
 			}
 		})
 	}
@@ -991,4 +1024,9 @@ func (c *Ctx) checkClientQoS2Receive(r *Report, rule string, cm *gwModel) {
 			}
 		}
 	}
+}
+
+func isEmptyInterface(t types.Type) bool {
+	it, ok := t.Underlying().(*types.Interface)
+	return ok && it.NumMethods() == 0
 }
